@@ -11,8 +11,11 @@ def run(ctx):
                     workers=vlib.NCPU)
     out = ctx.path("builtin.ndjson")
     ctx.drv_json("builtins", "-seed", ctx.seed, "-repo", vlib.REPO, "-out", out)
+    out2 = ctx.path("builtin-polluted.ndjson")      # a second process in which other recipes are used BEFORE the built-ins are first read
+    ctx.drv_json("builtins", "-seed", ctx.seed, "-repo", vlib.REPO, "-out", out2, "-pollute-first")
     v = ctx.validate("BuiltinTrace", out)
-    ev = vlib.read_ndjson(out)
+    v2 = ctx.validate("BuiltinTrace", out2)
+    ev = vlib.read_ndjson(out) + vlib.read_ndjson(out2)
     ctx.evaluations = len(ev)
     ctx.nontrivial = len(ev)
     ctx.exhaustive = True
@@ -20,6 +23,6 @@ def run(ctx):
                      preset_leaves={e["name"]: e["leaves"] for e in ev if e["op"] == "preset"})
     ctx.sample(next(e for e in ev if e["op"] == "class" and e["flag"] == 16))
     ctx.sample({k: (w if k != "vals" else w[:2]) for k, w in next(e for e in ev if e["op"] == "preset" and e["name"] == "SFSymbols").items()})
-    ctx.absorb([v], [out])
+    ctx.absorb([v, v2], [out, out2])
     ctx.assumptions += ["lower-casing of list entries is computed by the harness with the standard library", "the specification's constants ARE the documentation"]
     return "the specification's constants (class table, defaults, preset recipes, 200 / 1e-9) compared by TLC with %d observations of the real library" % len(ev)
